@@ -67,7 +67,7 @@ def preds(alpha):
 
 def ipreds(alpha):
     A = alpha[0]
-    return {"ieven": lambda x, i: i % 2 == 0, "i<1": lambda x, i: i < 1, "eqA|i=2": lambda x, i: x == A or i == 2, "i": lambda x, i: i}
+    return {"ieven": lambda x, i: i % 2 == 0, "i<1": lambda x, i: i < 1, "eqA-or-i=2": lambda x, i: x == A or i == 2, "i": lambda x, i: i}
 
 
 def alphabet(tier, seed):
@@ -96,7 +96,7 @@ def instances(tier):
     for pol in ("both", "first", "second"):
         for p in ("eqA", "neA", "T", "F", "int"):
             yield {"op": "partition", "pred": p, "policy": pol}
-        for p in ("ieven", "i<1", "eqA|i=2", "i"):
+        for p in ("ieven", "i<1", "eqA-or-i=2", "i"):
             yield {"op": "partition_indexed", "pred": p, "policy": pol}
 
 
